@@ -227,5 +227,37 @@ def run_summ():
     return res
 
 
+def run_tap():
+    """the static tie of the periodic sweep: translate_tap.py regenerates GeneratedTap.lean from `expire()` / `TimerService(…)` of
+    server_tap.makeService; Wormhole/Tie/Tap.lean proves it equal to the model's `Sys.expire`"""
+    import translate_tap
+    spec = json.load(open(os.path.join(LEAN, "theorems.json")))["TAPTIE"]
+    res = {"status": "tied", "theorems": len(spec["theorems"]), "discharged": 0, "detail": ""}
+    with open(os.path.join(LEAN, ".lake", "verif-build.lock"), "w") as lk:
+        fcntl.flock(lk, fcntl.LOCK_EX)
+        info = translate_tap.main()
+        if "error" in info:
+            res.update(status="untranslatable", detail=info["error"])
+            return res
+        res["timer"] = info["timer"]
+        key = _cache_key(translate_tap.OUT, ["PyTap.lean", "Core.lean", "Generated.lean"])
+        hit = _cache_get("tap", key)
+        if hit is not None:
+            hit["cached"] = True
+            return hit
+        ok, log = _lake(spec["modules"][0])
+        if not ok:
+            res["status"] = "broken"
+            res["detail"] = " | ".join([l for l in log.splitlines() if l.startswith("error")][:4])[-1000:]
+            _cache_put("tap", key, res)
+            return res
+        res["discharged"], bad = _audit(spec["modules"], spec["theorems"], "TAPTIE")
+        if bad:
+            res["status"] = "broken"
+            res["detail"] = "axioms: %s" % json.dumps(bad)[:600]
+        _cache_put("tap", key, res)
+    return res
+
+
 if __name__ == "__main__":
-    print(json.dumps({"sql": run(), "ws": run_ws(), "summ": run_summ()}, indent=1))
+    print(json.dumps({"sql": run(), "ws": run_ws(), "summ": run_summ(), "tap": run_tap()}, indent=1))
